@@ -34,10 +34,20 @@ func newDiffState(oldMast *Mast, newMast *Mast) *diffState {
 	// pushLink skips the nil root of an emptied tree
 	if oldMast != nil {
 		dc.oldMast = oldMast
-		dc.oldStack.pushLink(oldMast.root)
+		dc.oldStack.pushLink(rootLink(oldMast))
 	}
-	dc.newStack.pushLink(newMast.root)
+	dc.newStack.pushLink(rootLink(newMast))
 	return &dc
+}
+
+// rootLink is the link a diff starts from: none for an empty tree, whether it
+// was emptied (nil root) or never had an entry (an empty in-memory node, which
+// is not a node of any version and must not be reported as one).
+func rootLink(m *Mast) interface{} {
+	if node, ok := m.root.(*mastNode); ok && node.isEmpty() {
+		return nil
+	}
+	return m.root
 }
 
 func (dc *diffState) resetCurrent() {
